@@ -1433,3 +1433,75 @@ package collection
 //@ func (*queueClass_).MakeFromArray
 //@   props C05 C18
 //@   implements QueueClassLike.MakeFromArray
+
+// queue_ instance methods: the effect of each call on the abstract FIFO when it runs without interference
+// (view = queued values in arrival order), lock pairing on every exit, guarded-by on values_ / available_.
+//@ iface QueueLike.RemoveAll
+//@   nopanic
+//@   modifies view(this)
+//@   ensures view(this) == empty()
+//@ iface QueueLike.CloseQueue
+//@   modifies view(this)
+//@ iface QueueLike.GetSize
+//@   nopanic
+//@   ensures result == len(view(this))
+//@ iface QueueLike.IsEmpty
+//@   nopanic
+//@   ensures result <==> len(view(this)) == 0
+
+//@ func (*queue_).GetCapacity
+//@   props C04
+//@   implements QueueLike.GetCapacity
+//@ func (*queue_).AddValue
+//@   props C04 C05
+//@   mayblock
+//@   nopanic
+//@   requires !held(qmutex(this)) && !chanclosed(this.available_)
+//@   modifies view(this.values_), held(qmutex(this))
+//@   ensures[C04] !held(qmutex(this)) && view(this) == old(view(this)) ++ single(value)
+//@   ensures[C04,C05] old(len(view(this))) < this.capacity_
+//@ func (*queue_).RemoveHead
+//@   props C04 C05
+//@   mayblock
+//@   nopanic
+//@   requires !held(qmutex(this))
+//@   modifies view(this.values_), held(qmutex(this))
+//@   ensures[C04] !held(qmutex(this))
+//@   ensures[C04] result.1 ==> old(len(view(this))) > 0 && result.0 == old(view(this))[0] && view(this) == remove(old(view(this)), 0)
+//@   ensures[C04] !result.1 ==> old(len(view(this))) == 0 && chanclosed(this.available_) && view(this) == old(view(this)) && result.0 == zero(V)
+//@ func (*queue_).RemoveAll
+//@   props C04
+//@   nopanic
+//@   requires !held(qmutex(this))
+//@   modifies this.values_, this.available_, held(qmutex(this))
+//@   ensures[C04] !held(qmutex(this)) && view(this) == empty()
+//@ func (*queue_).CloseQueue
+//@   props C04
+//@   requires !held(qmutex(this))
+//@   modifies held(qmutex(this))
+//@   ensures[C04] !held(qmutex(this)) && chanclosed(this.available_) && view(this) == old(view(this))
+//@   xensures[C04] !held(qmutex(this)) || old(chanclosed(this.available_))
+//@ func (*queue_).IsEmpty
+//@   props C04
+//@   nopanic
+//@   requires !held(qmutex(this))
+//@   modifies held(qmutex(this))
+//@   ensures[C04] !held(qmutex(this)) && (result <==> len(view(this)) == 0)
+//@ func (*queue_).GetSize
+//@   props C04
+//@   nopanic
+//@   requires !held(qmutex(this))
+//@   modifies held(qmutex(this))
+//@   ensures[C04] !held(qmutex(this)) && result == len(view(this)) && result <= this.capacity_
+//@ func (*queue_).AsArray
+//@   props C04 C18
+//@   nopanic
+//@   requires !held(qmutex(this))
+//@   modifies held(qmutex(this))
+//@   ensures[C04,C18] !held(qmutex(this)) && fresh(result) && view(result) == view(this)
+//@ func (*queue_).GetIterator
+//@   props C04 C17 C18
+//@   nopanic
+//@   requires !held(qmutex(this))
+//@   modifies held(qmutex(this))
+//@   ensures[C04,C17] !held(qmutex(this)) && fresh(result) && result != nil && snap(result) == view(this) && pos(result) == 0
